@@ -507,7 +507,7 @@ class ServeMpsInitSeg(MediaRequestBase):
         except ValueError as err:
             logging.error('Invalid CGI parameters: %s', err)
             return flask.make_response('Invalid CGI parameters', 400)
-        media = models.MediaFile.get(stream_pk=period.stream.pk, name=filename)
+        media = models.MediaFile.get_by_url_name(period.stream.pk, filename)
         if media is None:
             logging.warning('Media file not  found: mps=%s ppk=%d filename=%s',
                             mps_name, ppk, filename)
@@ -546,7 +546,7 @@ class ServeMpsMedia(MediaRequestBase):
         except ValueError as err:
             logging.error('Invalid CGI parameters: %s', err)
             return flask.make_response('Invalid CGI parameters', 400)
-        media = models.MediaFile.get(stream_pk=period.stream.pk, name=filename)
+        media = models.MediaFile.get_by_url_name(period.stream.pk, filename)
         if media is None:
             logging.warning('Media file not  found: mps=%s ppk=%d filename=%s',
                             mps_name, ppk, filename)
